@@ -145,11 +145,11 @@ fn exec_rot(case: &RotCase) -> Outcome {
 	});
 	let cfg_path = bb::write_config(&dir, "acmed.toml", &cfg);
 	let key_path = lay.certs.join("c1_ecdsa-p256.pk.pem");
+	coll.hold_when(Box::new(|r, _| bb::is_post(r)));
 	let mut daemon = match Daemon::spawn(&bb::daemon_opts(&acmed, &dir, &cfg_path, "run")) {
 		Ok(d) => d,
 		Err(e) => return Outcome::Infra(e),
 	};
-	coll.hold_when(Box::new(|r, _| bb::is_post(r)));
 	let d = format!("{case:?}");
 	let mut result = None;
 	let mut placed: Option<Vec<u8>> = None;
